@@ -1,6 +1,7 @@
 """C02 — a version-2 dump yields exactly its records, in order, and its thread map."""
 from .. import vlib
 from ..translate import tr_kevent
+from ..harness import dumps as D
 from . import container_common as cc
 
 TRANSLATORS = [tr_kevent.translate]
@@ -36,7 +37,7 @@ def run(ctx, model_ok):
     res = vlib.run_impl('run_container.py', {'cases': cases})['results']
     ctx.evaluations = n
     ctx.rule = ('version-2 dumps: thread maps of 0/1/2/5/12 entries (duplicate tids/pids, names of 0/1/19 bytes incl. multi-byte '
-                'UTF-8), padding 0/1/7/63/64/65/200, 0..6 records, header filler zero/non-zero; every 6th with a first record '
+                'UTF-8), padding 0/1/7/63/64/65/200 (plus a sweep of 3500..4140 bytes and the lengths that end on a page boundary), 0..6 records, header filler zero/non-zero; every 6th with a first record '
                 'beginning with zero byte(s) (known finding F01); every 5th damaged (bad magic, flipped/inserted/dropped bytes); '
                 'every 2nd parsed with dirty pre-existing tables; non-trivial = distinct well-formed dump with >= 2 thread-map '
                 'entries, padding > 0 and >= 2 records')
@@ -67,6 +68,28 @@ def run(ctx, model_ok):
                                                'pids_names': r['pids_names']},
                                     'why': 'events / tables differ from the records and thread map of the file'})
         coq.append(cc.to_case(g['data'], [len(g['data'])], [r['summary']]))
+    # long padding: every length around the page sizes a buffered padding skipper might use (implementation against what the
+    # file holds; the first record starts with a non-zero byte)
+    lreq, linfo = [], []
+    rec = bytes([0x11]) + bytes(rng.getrandbits(8) for _ in range(63))
+    rec2 = bytes([0x22]) + bytes(rng.getrandbits(8) for _ in range(63))
+    for nthreads in (0, 3):
+        threads = cc.rand_threads(rng, nthreads)
+        for B in ([4096] if ctx.quick() else [4096, 8192, 16384, 65536]):
+            for L in list(range(B - 600, B + 40, 13)) + [B - 288 - 28 * nthreads + d for d in range(-3, 4)]:
+                data = D.build_v2(threads, L, [rec, rec2])
+                lreq.append({'file': data.hex()})
+                linfo.append((threads, L, data))
+    lres = vlib.run_impl('run_container.py', {'cases': lreq}, timeout=3000)['results']
+    ctx.evaluations += len(lreq)
+    exp2 = [[int.from_bytes(x[0:8], 'little'), int.from_bytes(x[40:48], 'little'), int.from_bytes(x[48:52], 'little')] for x in (rec, rec2)]
+    for (threads, L, data), rs in zip(linfo, lres):
+        r = rs[0]
+        if r['err'] is not None or r['events'] != exp2:
+            ctx.failing.append({'input': {'file': data.hex() if len(data) < 12000 else None, 'first_record_byte': 0x11,
+                                          'threads': [[t, p, nm.hex()] for t, p, nm in threads], 'pad': L, 'n_records': 2},
+                                'expected': {'events(ts,tid,debugid)': exp2}, 'actual': {'events': r['events'][:4], 'err': r['err']},
+                                'why': 'events differ from the records of the file (long zero padding after the thread map)'})
     ctx.samples = [{'file_hex_prefix': gens[0]['data'][:320].hex(), 'threads': [[t, p, nm.hex()] for t, p, nm in gens[0]['threads']],
                     'pad': gens[0]['pad'], 'n_records': len(gens[0]['records']), 'impl_summary': res[0][0]['summary']}]
     if model_ok:
